@@ -213,24 +213,35 @@ H_UpdateBatchMetadata(s, m) ==
 
 \* ------------------------------------------------------------------ Send
 \* one entry [denom, t, r]: tradable part then retired part, each skipped at 0
+\* as the code does it (msg_send.go): the tradable part is debited from the sender and
+\* credited to the recipient, THEN the retired part is debited and credited (and moved in
+\* the supply).  The order only matters when sender and recipient are the same account
+\* (a send to another spelling of the sender's own address): the tradable part returns
+\* before the retired part is taken.
 SendOne(s, from, to, e) ==
   IF ~HasBatchDenom(s, e.denom) THEN Fail(s) ELSE
   LET b == BatchByDenom(s, e.denom) IN
   IF ~BatchResolvable(s, b) THEN Fail(s) ELSE
-  LET amt == e.t + e.r
-      fb  == BalOf(s, from, b.key)
+  \* tradable part
+  LET r1 == IF e.t = 0 THEN Ok(s)
+            ELSE IF ~HasBal(s, from, b.key) \/ BalOf(s, from, b.key).t < e.t THEN Fail(s)
+            ELSE LET fb == BalOf(s, from, b.key)
+                     s1 == SetBal(s, [fb EXCEPT !.t = @ - e.t])
+                     tb == BalOf(s1, to, b.key)
+                 IN Ok(SetBal(s1, [tb EXCEPT !.t = @ + e.t]))
   IN
-  IF amt = 0 THEN Ok(s)
-  ELSE IF ~HasBal(s, from, b.key) \/ fb.t < amt THEN Fail(s)
-  ELSE IF e.r > 0 /\ ~HasSupply(s, b.key) THEN Fail(s)
-  ELSE
-  LET s1 == SetBal(s, [fb EXCEPT !.t = @ - amt])
-      tb == BalOf(s1, to, b.key)
-      s2 == SetBal(s1, [tb EXCEPT !.t = @ + e.t, !.r = @ + e.r])
-      s3 == IF e.r = 0 THEN s2
-            ELSE LET sup == SupplyOf(s2, b.key) IN
-                 SetSupply(s2, [sup EXCEPT !.t = @ - e.r, !.r = @ + e.r])
-  IN IF e.r > 0 /\ SupplyOf(s, b.key).t < e.r THEN Fail(s) ELSE Ok(s3)
+  IF ~r1.ok THEN Fail(s) ELSE
+  \* retired part
+  IF e.r = 0 THEN r1
+  ELSE LET u == r1.s IN
+       IF ~HasBal(u, from, b.key) \/ BalOf(u, from, b.key).t < e.r THEN Fail(s)
+       ELSE LET fb == BalOf(u, from, b.key)
+                s1 == SetBal(u, [fb EXCEPT !.t = @ - e.r])
+                tb == BalOf(s1, to, b.key)
+                s2 == SetBal(s1, [tb EXCEPT !.r = @ + e.r])
+            IN IF ~HasSupply(s2, b.key) \/ SupplyOf(s2, b.key).t < e.r THEN Fail(s)
+               ELSE LET sup == SupplyOf(s2, b.key) IN
+                    Ok(SetSupply(s2, [sup EXCEPT !.t = @ - e.r, !.r = @ + e.r]))
 
 RECURSIVE SendFold(_, _, _, _, _)
 SendFold(s, from, to, cs, i) ==
@@ -239,7 +250,9 @@ SendFold(s, from, to, cs, i) ==
        IF r.ok THEN SendFold(r.s, from, to, cs, i + 1) ELSE r
 
 H_Send(s, m) ==
-  IF m.sender = m.recipient \/ Len(m.credits) = 0 THEN Fail(s)
+  \* (sender # recipient is a check on the address STRINGS: RawOK, Ecocredit.tla; a send to
+  \* another spelling of the sender's own address is a valid no-op / self-retirement)
+  IF Len(m.credits) = 0 THEN Fail(s)
   ELSE Atomic(s, SendFold(s, m.sender, m.recipient, m.credits, 1))
 
 \* ------------------------------------------------------------------ Retire / Cancel
@@ -330,7 +343,7 @@ H_BridgeReceive(s, m) ==
 H_UpdateClassAdmin(s, m) ==
   IF ~HasClassId(s, m.class_id) THEN Fail(s) ELSE
   LET c == ClassById(s, m.class_id) IN
-  IF c.admin # m.admin \/ m.admin = m.new_admin THEN Fail(s)
+  IF c.admin # m.admin THEN Fail(s)     \* admin # new_admin as strings: RawOK
   ELSE Ok([s EXCEPT !.classes = (@ \ {c}) \cup {[c EXCEPT !.admin = m.new_admin]}])
 
 H_UpdateClassMetadata(s, m) ==
@@ -358,7 +371,7 @@ H_UpdateClassIssuers(s, m) ==
 H_UpdateProjectAdmin(s, m) ==
   IF ~HasProjectId(s, m.project_id) THEN Fail(s) ELSE
   LET p == ProjectById(s, m.project_id) IN
-  IF p.admin # m.admin \/ m.admin = m.new_admin THEN Fail(s)
+  IF p.admin # m.admin THEN Fail(s)     \* admin # new_admin as strings: RawOK
   ELSE Ok([s EXCEPT !.projects = (@ \ {p}) \cup {[p EXCEPT !.admin = m.new_admin]}])
 
 H_UpdateProjectMetadata(s, m) ==
